@@ -202,8 +202,9 @@ def specs(draw, rich=True, with_mutation=None, with_subscription=False, max_obje
         for i in range(draw(st.integers(1, 3))):
             vals.append({"name": "%s_V%d" % (e, i), "value": draw(st.sampled_from(["name", "int", "str"])),
                          "desc": draw(_DESC), "deprecated": draw(_DEPR)})
+        perm = draw(st.permutations(range(3)))   # the same internal value names different members in different schemas
         for i, v in enumerate(vals):
-            v["value"] = {"name": v["name"], "int": 10 + i, "str": "internal-%d" % i}[v["value"]]
+            v["value"] = {"name": v["name"], "int": 10 + perm[i], "str": "internal-%d" % perm[i]}[v["value"]]
         types[e] = {"kind": "enum", "name": e, "values": vals, "desc": draw(_DESC)}
     leaf_in = BUILTIN_SCALARS + scalars + enums
     # input objects (may reference each other / themselves through nullable or list positions)
